@@ -321,6 +321,7 @@ def remInt (x y : Int) : Res Val :=
 /-- `"ab" * 3`; a negative count is an error, results above 10^8 bytes are not in the fragment -/
 def repeatStr (x : String) (n : Int) : Res Val :=
   if n < 0 then .error .invalidOp
+  else if x.utf8ByteSize = 0 then .ok (.str "")     -- any number of copies of the empty string
   else if x.utf8ByteSize * n.toNat > 100000 then .error .outOfFragment
   else .ok (.str (String.join (List.replicate n.toNat x)))
 
